@@ -10,29 +10,39 @@ CONSTANT MaxLen
 Translators == {"A", "B", "F"}
 Programs == {"p", "e", "w", "q"}
 Lang(tr) == IF tr = "B" THEN "other" ELSE "own"
-Key(tr, prog) == <<Lang(tr), prog>>          \* package and options are fixed per run
+\* A program object may also be mutated *in place* between translations (the driver's pipeline applies the mutations to the
+\* same object): ver[prog] counts these mutations (1st: type erasure, 2nd: type overwriting); a new version is a new program.
 
 VARIABLES hist,      \* the calls so far
           text,      \* Key |-> the text observed for it first
+          ver,       \* program |-> number of in-place mutations so far
           done
-Init == hist = <<>> /\ text = [k \in {} |-> ""] /\ done = FALSE
+Key(tr, prog) == <<Lang(tr), prog, ver[prog]>>          \* package and options are fixed per run
+Init == hist = <<>> /\ text = [k \in {} |-> ""] /\ ver = [q \in Programs |-> 0] /\ done = FALSE
 
 \* Translate(tr, prog) observing text digest d (d = "" : the call raised) and program snapshots before / after
 Translate(tr, prog, d) ==
-  /\ hist' = Append(hist, [tr |-> tr, prog |-> prog])
+  /\ hist' = Append(hist, [op |-> "tr", tr |-> tr, prog |-> prog])
   /\ text' = IF d # "" /\ Key(tr, prog) \notin DOMAIN text
              THEN [k \in DOMAIN text \cup {Key(tr, prog)} |-> IF k = Key(tr, prog) THEN d ELSE text[k]] ELSE text
-  /\ UNCHANGED done
+  /\ UNCHANGED <<done, ver>>
+MutateInPlace(prog) ==
+  /\ ver[prog] < 2
+  /\ hist' = Append(hist, [op |-> "mut", tr |-> "-", prog |-> prog])
+  /\ ver' = [ver EXCEPT ![prog] = @ + 1]
+  /\ UNCHANGED <<text, done>>
 \* the property, per call
 Functional(tr, prog, d) == (d # "" /\ Key(tr, prog) \in DOMAIN text) => text[Key(tr, prog)] = d
 ProgUnchanged(before, after) == before = after
 
 \* ---- G: call histories (exhaustive up to MaxLen, or random with -simulate) -----------------------------------------------
-Finish == /\ Len(hist) >= 1 /\ ~done /\ done' = TRUE /\ UNCHANGED <<hist, text>> /\ PrintT(ToJson(hist))
+Finish == /\ Len(hist) >= 1 /\ ~done /\ done' = TRUE /\ UNCHANGED <<hist, text, ver>> /\ PrintT(ToJson(hist))
 GNext == \/ /\ Len(hist) < MaxLen /\ ~done
-            /\ \E tr \in Translators, prog \in Programs : Translate(tr, prog, "x")
+            /\ \/ \E tr \in Translators, prog \in Programs : Translate(tr, prog, "x")
+               \/ \E prog \in {"p", "q"} : MutateInPlace(prog)
          \/ Finish
 GNextSim == \/ /\ Len(hist) < MaxLen /\ ~done
-               /\ \E tr \in Translators, prog \in Programs : Translate(tr, prog, "x")
+               /\ \/ \E tr \in Translators, prog \in Programs : Translate(tr, prog, "x")
+                  \/ \E prog \in {"p", "q"} : MutateInPlace(prog)
             \/ (Len(hist) = MaxLen /\ Finish)
 =============================================================================
